@@ -101,6 +101,13 @@ func (r *responseStorer) StoreResponse(
 	} else {
 		refs[refIndex] = refEntry // Update existing response reference
 	}
+	// Replacing the selected record may duplicate another record of the same
+	// entry (e.g. a "Vary: *" reply to the validation of a different variant):
+	// keep one record per entry.
+	refs = slices.DeleteFunc(refs, func(ref *ResponseRef) bool {
+		return ref != nil && ref != refEntry && ref.ResponseID == responseID &&
+			ref.Vary == vary && maps.Equal(ref.VaryResolved, varyResolved)
+	})
 
 	return r.cache.SetRefs(urlKey, refs)
 }
